@@ -17,6 +17,11 @@ import (
 	"github.com/hashicorp/go-hclog"
 )
 
+// shutdownWriteGrace is how long writes to a connection may still take once
+// the server is stopping (enough to deliver the notice of disconnection and
+// responses already in-flight to a client that's reading them)
+const shutdownWriteGrace = 1 * time.Second
+
 // Server is an ldap server that you can add a mux (multiplexer) router to and
 // then run it to accept and process requests.
 type Server struct {
@@ -258,6 +263,19 @@ func (s *Server) Run(addr string, opt ...Option) error {
 					return
 				}
 			}
+			// when the server is stopping, wake up a read or write which is
+			// blocked on a client that's idle (or isn't reading), otherwise
+			// such a client could keep Stop waiting forever.
+			connDone := make(chan struct{})
+			defer close(connDone)
+			go func() {
+				select {
+				case <-connDone:
+				case <-s.shutdownCtx.Done():
+					_ = c.SetReadDeadline(time.Now())
+					_ = c.SetWriteDeadline(time.Now().Add(shutdownWriteGrace))
+				}
+			}()
 			if err := conn.serveRequests(); err != nil {
 				s.logger.Error("error handling conn", "op", op, "conn", localConnID, "err", err.Error())
 			}
